@@ -113,13 +113,13 @@ def csr_rows(specs, bits, dtype, order=None, zeros=False, rng=None):
 @fpheap.with_heap_cases(("metric",), 60, 1500)
 class C06(vlib.Check):
     id = "C06"
-    props_modules = ["E3fpVerif.Props.C06", "E3fpVerif.Props.C06Real", "E3fpVerif.Props.C06Csr"]
+    props_modules = ["E3fpVerif.Props.C06", "E3fpVerif.Props.C06Real", "E3fpVerif.Props.C06Csr", "E3fpVerif.Props.C06Counts"]
     gen_items = ["metrics"]
     rule = ("pairs of fingerprints of all kinds (empty, identical, subset, disjoint, random; bits 8..2^32 for the fingerprint "
             "forms, <= 4096 for the matrix forms) x five measures x sixteen calling forms (metrics.* with fp/fp, fp/db, db/fp, "
             "db/db, single argument; fprint_metrics.*; array_metrics.* on dense arrays, canonical CSR, CSR with shuffled "
             "column order, CSR with explicit zeros; cosine(assume_binary); CSR in the kind's own dtype with shuffled columns and "
-            "databases built by from_array on such matrices, each with an operand-unchanged check; array_metrics.*(X) alone; the two Soergel kernels also without the optional Numba JIT). Non-trivial: both operands non-empty and not "
+            "databases built by from_array on such matrices, each with an operand-unchanged check; array_metrics.*(X) alone; the two Soergel kernels also without the optional Numba JIT; 2^25-column 0/1 rows sharing more than 2^24 on-bits against the closed forms of Model/MetricsCounts (driver op met.counts)). Non-trivial: both operands non-empty and not "
             "identical; distinct by (measure, form, operands).")
     trusted_base = ["SciPy sparse product / norms, np.corrcoef, cdist, nan_to_num, Numba-compiled Soergel kernels (compared on every run)"]
     assumptions = ["float results are compared with the exact rational (or num/sqrt(rad)) to 1e-9 relative"]
@@ -422,23 +422,29 @@ class C06(vlib.Check):
                                         [k for k, f in enumerate(xs) if not f["idx"]], [k for k, f in enumerate(ys) if not f["idx"]])}
         return None
 
-    def _huge_prop(self, case):
-        bits, m = case["bits"], case["m"]
-
+    @staticmethod
+    def _huge_counts(case):
         def size(rs):
             return sum(e - s_ for s_, e in rs)
 
         def inter(r1, r2):
             return sum(max(0, min(e1, e2) - max(s1, s2)) for s1, e1 in r1 for s2, e2 in r2)
-        a, b, c = size(case["A"]), size(case["B"]), inter(case["A"], case["B"])
-        want = {"tanimoto": Fraction(c, a + b - c), "soergel": Fraction(c, a + b - c), "dice": Fraction(2 * c, a + b),
-                "cosine": c / math.sqrt(a * b), "pearson": (bits * c - a * b) / math.sqrt(a * (bits - a) * b * (bits - b))}[m]
+        return size(case["A"]), size(case["B"]), inter(case["A"], case["B"])
+
+    def _huge_values(self, case):
+        """{route: value | "raised <type>"} - computed once per case (impl and prop both look at it)"""
+        key = vlib.canon(case)
+        cache = self.__dict__.setdefault("_huge_cache", {})
+        if key in cache:
+            return cache[key]
+        bits, m = case["bits"], case["m"]
         dt = np.bool_ if m in BINARY else np.float64
 
         def row(rs):
             idx = np.concatenate([np.arange(s_, e, dtype=np.int32) for s_, e in rs])
             return csr_matrix((np.ones(len(idx), dtype=dt), idx, np.array([0, len(idx)], dtype=np.int32)), shape=(1, bits))
         X, Y = row(case["A"]), row(case["B"])
+        out = {}
         for route in case["routes"]:
             try:
                 if route == "sparse":
@@ -450,9 +456,21 @@ class C06(vlib.Check):
                     dbx = FingerprintDatabase.from_array(X.astype(DTYPE[kind]), ["x"], fp_type=CLS[kind], level=5)
                     dby = FingerprintDatabase.from_array(Y.astype(DTYPE[kind]), ["y"], fp_type=CLS[kind], level=5)
                     v = getattr(M, m)(dbx, dby)
-                v = float(np.asarray(v).reshape(-1)[0])
+                out[route] = float(np.asarray(v).reshape(-1)[0])
             except Exception as e:  # noqa: BLE001
-                return {"key": "metric-raises:%s:very-dense-%s:%s" % (m, route, type(e).__name__), "what": "%s on rows of %d and %d on-bits (%s) raised %r" % (m, a, b, route, e)}
+                out[route] = "raised " + type(e).__name__
+        cache.clear()
+        cache[key] = out
+        return out
+
+    def _huge_prop(self, case):
+        bits, m = case["bits"], case["m"]
+        a, b, c = self._huge_counts(case)
+        want = {"tanimoto": Fraction(c, a + b - c), "soergel": Fraction(c, a + b - c), "dice": Fraction(2 * c, a + b),
+                "cosine": c / math.sqrt(a * b), "pearson": (bits * c - a * b) / math.sqrt(a * (bits - a) * b * (bits - b))}[m]
+        for route, v in self._huge_values(case).items():
+            if isinstance(v, str):
+                return {"key": "metric-raises:%s:very-dense-%s:%s" % (m, route, v.split()[-1]), "what": "%s on rows of %d and %d on-bits (%s) %s" % (m, a, b, route, v)}
             if not close(v, want):
                 return {"key": "metric-wrong:%s:very-dense-%s" % (m, route),
                         "what": "%s, %s route: rows with %d and %d on-bits of %d, %d in common: got %r, the definition gives %r" % (m, route, a, b, bits, c, v, float(want))}
@@ -472,7 +490,9 @@ class C06(vlib.Check):
     def impl(self, case):
         if case["t"] == "csr":
             return attempt(lambda: self._csr_call(case))
-        if case["t"] in ("matrix", "huge"):
+        if case["t"] == "huge":
+            return {"ok": self._huge_values(case)}
+        if case["t"] == "matrix":
             return {"ok": "see prop"}
         if case["t"] == "mismatch":
             return attempt(lambda: self._call(case) and "accepted")
@@ -484,7 +504,11 @@ class C06(vlib.Check):
     def model_ops(self, case):
         if case["t"] == "csr":
             return [{"op": "met.csr_soergel", "X": case["X"], "Y": case["Y"]}]
-        if case["t"] in ("matrix", "huge"):
+        if case["t"] == "huge":
+            # the closed forms of Model/MetricsCounts (Props/C06Counts: the definitions' values on 0/1 rows) at the rows' counts
+            a_, b_, c_ = self._huge_counts(case)
+            return [{"op": "met.counts", "m": case["m"], "a": a_, "b": b_, "c": c_, "bits": case["bits"]}]
+        if case["t"] == "matrix":
             return [{"op": "fpr.hash", "words": []}]
         a, b, m, form = case["a"], case["b"], case["m"], case["form"]
         if case["t"] == "mismatch":
@@ -543,7 +567,9 @@ class C06(vlib.Check):
         if case["t"] == "csr":
             a = answers[0]
             return {"ok": [[float(Fraction(v)) for v in row] for row in a["ok"]]} if "ok" in a else a
-        if case["t"] in ("matrix", "huge"):
+        if case["t"] == "huge":
+            return answers[0]
+        if case["t"] == "matrix":
             return {"ok": "see prop"}
         if case["t"] == "mismatch":
             if case["form"] in ("fp-fp", "fp-db", "db-db"):
@@ -563,7 +589,12 @@ class C06(vlib.Check):
                     len(r1) == len(r2) and all(close(x, y, 1e-12) for x, y in zip(r1, r2)) for r1, r2 in zip(a_impl["ok"], a_model["ok"])):
                 return None
             return {"impl": a_impl, "model": a_model}
-        if case["t"] in ("matrix", "huge"):
+        if case["t"] == "huge":
+            mv = model_value(a_model)
+            if isinstance(mv, dict) or any(isinstance(v, str) or not close(v, mv) for v in a_impl["ok"].values()):
+                return {"impl": a_impl, "model_value": mv, "model": a_model}
+            return None
+        if case["t"] == "matrix":
             return None
         if case["t"] == "mismatch":
             if case["form"] in ("fp-fp", "fp-db", "db-db") and ("err" in a_impl) != ("err" in a_model):
